@@ -156,6 +156,27 @@ def _run_case(case, st):
         if got[0] != "ok" or (got[1].uss, got[1].pss, got[1].swap) != (uss2, pss2, swap2):
             bad.append(("memory_full_info:stale-after-a-block-left-by-an-exception", "got %r expected %r" % (freeze(got), (uss2, pss2, swap2))))
         return bad
+    if k == "deleted-flip":
+        # the same question twice while a file literally called "X (deleted)" comes into being / goes away in between: each
+        # answer follows the file system as it is at THAT call
+        p.maps = [mk_mapping(0, b"/tmp/q (deleted)", 1, ()), mk_mapping(1, b"/tmp/q", 1, ())]
+        seqs = case[1]
+        for step, exists in enumerate(seqs):
+            if exists:
+                w.set_file("/tmp/q (deleted)", b"x")
+            else:
+                w.remove("/tmp/q (deleted)")
+            uss, pss, swap, rows, grouped = ref(w, p.maps)
+            got = outcome(pr.memory_maps, grouped=False)
+            g = [r.path for r in got[1]] if got[0] == "ok" else got
+            if g != [r["path"] for r in rows]:
+                bad.append(("memory_maps:deleted-suffix-decided-from-an-earlier-call", "step %d of %r: paths %r, expected %r" % (step, seqs, g, [r["path"] for r in rows])))
+            got = outcome(pr.memory_maps, grouped=True)
+            gg = sorted(r.path for r in got[1]) if got[0] == "ok" else got
+            if gg != sorted(grouped):
+                bad.append(("memory_maps:grouped:deleted-suffix-decided-from-an-earlier-call", "step %d of %r: rows %r, expected %r" % (step, seqs, gg, sorted(grouped))))
+        w.remove("/tmp/q (deleted)")
+        return bad
     if k == "percent-seq":
         # the total that memory_percent() divides by is the one of the LATEST virtual_memory() reading
         p.maps = [mk_mapping(0, b"/lib/a.so", 3, ("Private_Hugetlb",))]
@@ -225,6 +246,8 @@ def build_cases(thorough):
                 cases.append(("maps", ["/lib/a.so", ""], 1, sub, mode))
     for mode in ("rollup", "rollup-enoent"):
         cases.append(("maps", ["/lib/a.so", "", "[heap]"], 1, ("thptab", "vmflags"), mode))
+    for seq_ in ((False, True), (True, False), (False, True, False)):
+        cases.append(("deleted-flip", seq_))
     for scale in (2 ** 20, 2 ** 30):            # figures up to ~2^36 kB (tens of TB)
         for mode in ("rollup", "rollup-enoent"):
             cases.append(("maps", ["/lib/a.so", "", "/lib/a.so"], scale, ("Private_Hugetlb",), mode))
@@ -276,5 +299,7 @@ def replay(ctx, case):
             c = (c[0], c[1], c[2], tuple(c[3]), c[4])
         if c[0] == "percent-seq":
             c = (c[0], c[1], tuple(c[2]))
+        if c[0] == "deleted-flip":
+            c = (c[0], tuple(c[1]))
         bad = guarded(run_case, c, (w, p))
     return {"violated": bool(bad), "viols": bad}
